@@ -423,6 +423,15 @@ def values_tie(ctx, count):
         t2.cols["height (measured)"] = stub.cols["tip position"]
         t2.fit_properties["x_axis"] = "height (measured)"
         twins.append(("x_axis='height (measured)' (+ unrelated tip position column)", t2))
+        # ... or in the retract segment: a long retract ramp that reaches beyond both ends of the approach (the
+        # contact point may lie outside the approach range but inside that of the retract)
+        nret_ = 25
+        span_ = float(np.ptp(x)) or 1.0
+        xr_ = np.linspace(float(np.min(x)) - 0.5 * span_ - 3.0, float(np.max(x)) + 0.5 * span_ + 3.0, nret_)
+        t3 = Stub(np.concatenate([x, xr_]), np.concatenate([y, np.linspace(float(np.max(y)), -20.0, nret_)]),
+                  np.concatenate([fit, np.full(nret_, np.nan)]),
+                  np.concatenate([np.zeros(len(x)), np.ones(nret_)]).astype(np.uint8), cp)
+        twins.append(("a retract segment that reaches beyond both ends of the approach", t3))
         with warnings.catch_warnings(), np.errstate(all="ignore"):
             warnings.simplefilter("ignore")
             try:
@@ -482,7 +491,9 @@ def values_tie(ctx, count):
             if not (np.isnan(v) or np.isinf(v)):
                 ctx.disagree(case, v, o, f"{name}: model gives NaN")
             # (an exactly constant force is degenerate input: only the tie is checked there)
-            if np.isinf(v) and not case["kind"].startswith("flat"):
+            # (so is a force that never exceeds zero - e.g. a drop-at-end dataset whose only positive samples were
+            # the ones zeroed: division by a maximal force of zero, outside the property like the constant force)
+            if np.isinf(v) and not case["kind"].startswith("flat") and max(case["y"]) > 0:
                 ctx.violation(f"not-finite:{name}", f"{name} = {v!r} on a fitted curve ({case['kind']})",
                               {"input": case})
             continue
